@@ -529,6 +529,9 @@ def rule_engine_evaluated(ctx, rid, er, aspects, kinds=("run",)):
             er = minimal_roles(m)
     e = er.engine
     n_cfg, n_eval, bad, err = evaluate_engine(m, er, rankers_of(m, er))
+    if "startup" in kinds:
+        ctx.trust("model of threading.Thread in the engine evaluation: a thread has its `ident` from the moment it is launched; the window of "
+                  "CPython in which start() was interrupted after the OS thread was launched but before that thread set its ident is not modelled")
     mine = [b for b in bad if b[0] in kinds and b[1] in aspects]
     if err and not mine:
         raise AnalysisError(f"engine evaluation: {err}")
